@@ -94,10 +94,21 @@ def same_meta(m1, m2):
         for a, b in zip(m1, m2))
 
 
-def build_pair(fparams, decorate_src, ref_params, method=False, extra_globals=None):
-    """exec the decorated function and the native reference; returns (g, ref, namespace)."""
+def build_pair(fparams, decorate_src, ref_params, method=False, extra_globals=None, reuse=False):
+    """exec the decorated function and the native reference; returns (g, ref, namespace).
+    reuse: every decorator object is created once, applied to another function first, and
+    then to the function under observation (a decorator object may be used any number of times)."""
     fn = 'mf%d' % next(_n)
     body = 'return dict(locals())'
+    if reuse and not method:
+        names = ['_deco%d' % i for i in range(len(decorate_src))]
+        src = 'from sigtools import modifiers\n'
+        src += ''.join('%s = %s\n' % (nm, l.lstrip('@')) for nm, l in zip(names, decorate_src))
+        src += ''.join('@%s\n' % nm for nm in names) + 'def warmup_%s(%s): %s\n' % (fn, sigs.render(fparams), body)
+        src += ''.join('@%s\n' % nm for nm in names) + 'def %s(%s): %s\n' % (fn, sigs.render(fparams), body)
+        src += 'def ref_%s(%s): %s\n' % (fn, sigs.render(ref_params), body)
+        g = sigs.compile_module(src, globs=extra_globals, tag='vmod')
+        return g[fn], g['ref_' + fn], g
     if method:
         src = ('from sigtools import modifiers\n'
                'class A(object):\n'
@@ -122,13 +133,17 @@ def build_pair(fparams, decorate_src, ref_params, method=False, extra_globals=No
 
 @core.guarded(None)
 def check_case(ctx, prop, fparams, decorate_src, make_kwo, make_po, admissible, method=False,
-               label=''):
+               label='', reuse=False):
     """One decoration.  `decorate_src` = decorator lines (outermost first)."""
     import sigtools
     V = lambda mech, what, w: ctx.violation(prop, 'ModifierBoundary', mech, what, w, rp)
     rp = dict(workload='mod', fparams=sigs.to_json(fparams), decorators=list(decorate_src),
-              make_kwo=sorted(make_kwo), make_po=sorted(make_po), admissible=admissible, method=method)
-    w = {'function': 'def f(%s)' % sigs.render(fparams), 'decorators': list(decorate_src), 'method': method}
+              make_kwo=sorted(make_kwo), make_po=sorted(make_po), admissible=admissible, method=method,
+              reuse=reuse)
+    w = {'function': 'def f(%s)' % sigs.render(fparams), 'decorators': list(decorate_src), 'method': method,
+         'decorator_objects_used_before': reuse}
+    if reuse:
+        ctx.count('%s.decorator_objects_reused' % prop)
     ctx.evaluated()
     ctx.count('%s.decorations' % prop)
     ref_params = expected_params(fparams, make_kwo, make_po) if admissible else fparams
@@ -136,7 +151,7 @@ def check_case(ctx, prop, fparams, decorate_src, make_kwo, make_po, admissible, 
         ctx.count('%s.skipped_expected_not_expressible' % prop)
         return None
     try:
-        g, ref, ns = build_pair(fparams, decorate_src, ref_params, method=method)
+        g, ref, ns = build_pair(fparams, decorate_src, ref_params, method=method, reuse=reuse)
     except ValueError as e:
         if admissible:
             V('admissible-selection-raises', 'an admissible selection raised ValueError at decoration time: %s' % e, w)
@@ -150,7 +165,7 @@ def check_case(ctx, prop, fparams, decorate_src, make_kwo, make_po, admissible, 
     if not admissible:
         V('inadmissible-selection-accepted', 'an inadmissible selection did not raise ValueError at decoration time', w)
         return None
-    ctx.nontrivial((sigs.shape_key(fparams), tuple(decorate_src), method))
+    ctx.nontrivial((sigs.shape_key(fparams), tuple(decorate_src), method, reuse))
     want = sig_meta(inspect.signature(ref))
     for lab, retr in (('sigtools.signature', sigtools.signature), ('inspect.signature', inspect.signature)):
         try:
@@ -296,8 +311,10 @@ def run_c12(ctx):
                     # self (a regular parameter) precedes: posoargs(names) is inadmissible on a method
                     adm = admissible_po(fp, mp)
                 check_case(ctx, 'C12', fp, deco, mk, mp, adm, method=method)
+                if not method and adm and rnd.random() < 0.3:
+                    check_case(ctx, 'C12', fp, deco, mk, mp, adm, method=False, reuse=True)
 
 
 def replay(ctx, rec, prop='C12'):
     check_case(ctx, prop, sigs.from_json(rec['fparams']), rec['decorators'], set(rec['make_kwo']),
-               set(rec['make_po']), rec['admissible'], method=rec['method'])
+               set(rec['make_po']), rec['admissible'], method=rec['method'], reuse=rec.get('reuse', False))
